@@ -78,6 +78,13 @@ def jobs(tier, seed):
         out.append(_j('stud-short-bring-in', C.stud(stacks, antes=2, bring_in=1, game='FixedLimitSevenCardStud'),
                       dev_bound=3))
         out.append(_j('badugi', C.fl(stacks, game='FixedLimitBadugi'), dev_bound=3 if not th else 4))
+    # bring-in games in cash-game mode, where a fold that faces no bet is only warned about: while the bring-in is pending
+    # neither a fold nor a check is an action; both warning filters
+    for stacks in [(5, 9, 30), (4, 6)]:
+        for game in ('FixedLimitSevenCardStud', 'FixedLimitRazz', 'FixedLimitSevenCardStudHighLowSplitEightOrBetter'):
+            for warn in ('ignore', 'error'):
+                out.append(_j('stud-cash-mode', C.stud(stacks, game=game, mode='cash'), warn=warn, opts={'fold_unfaced': True},
+                              dev_bound=3 if not th else 4))
     for stacks in [(2, 9), (9, 2), (2, 2), (2, 9, 9), (9, 2, 9), (9, 9, 2), (2, 2, 2), (3, 2, 9), (5, 3, 2)]:
         for game in ('FixedLimitSevenCardStud', 'FixedLimitRazz'):
             out.append(_j('stud-partial-bring-in', C.stud(stacks, game=game, antes=1, bring_in=2, small=4, big=8), dev_bound=3))
